@@ -197,7 +197,33 @@ pub fn exec_hist_dyn(case: &Case, spec: &HistSpec, known: &BTreeSet<String>, str
     fn go<P: TP>(case: &Case, spec: &HistSpec, known: &BTreeSet<String>, strict: bool) -> CaseResult {
         exec_hist::<P>(case, spec, known, strict)
     }
-    crate::dispatch_tp!(case.ptype.as_str(), go, case, spec, known, strict)
+    let mut r = crate::dispatch_tp!(case.ptype.as_str(), go, case, spec, known, strict);
+    if spec.id == "C18" {
+        c18_twin(&mut r, || {
+            let twin = crate::ops::strip_noise(case);
+            crate::dispatch_tp!(twin.ptype.as_str(), go, &twin, spec, known, strict)
+        });
+    }
+    r
+}
+
+/// C18, interchangeability clause: if a case fails an oracle of another property (lookup, removal,
+/// selection, set operation) but the *same case with all host bits zeroed* passes, then the behaviour
+/// depends on host bits - which is exactly what C18 forbids.
+pub fn c18_twin(r: &mut CaseResult, run_twin: impl FnOnce() -> CaseResult) {
+    let Some(f) = &r.fail else { return };
+    if f.prop == "C18" || f.prop == "BUILD" && false {
+        return;
+    }
+    let twin = run_twin();
+    if twin.fail.is_none() && twin.harness_bug.is_none() {
+        let f = r.fail.take().unwrap();
+        r.fail = Some(Fail {
+            prop: "C18",
+            sig: format!("C18:behaviour-depends-on-host-bits:{}", f.sig),
+            msg: format!("the same case passes when every prefix is given with zeroed host bits, but with host bits set: {}", f.msg),
+        });
+    }
 }
 
 /// Run a history-based check over all its prefix types and shards.
